@@ -240,7 +240,7 @@ CHECKS["C13"] = dict(
          "by vm_compute) the requester's next contact reaches the introduced peer and both end up verified; same-NAT peers connect over "
          "LAN addresses. The LAN subnet table is translated from the source. Every run replays the configurations on real Community nodes "
          "on a NAT-enforcing simulator and compares each history with the model inside Coq; an independent oracle also judges "
-         "DiscoveryCommunity nodes. Second property file props/C13x.v (8 theorems): general NAT lemmas (filter_only_by_outbound, mapping_only_by_own_outbound, other_sites_untouched, delivered_was_solicited) and the enlarged space with the introducer itself behind a NAT (6144 configurations decided in the kernel): nat_introducer_reachability wherever the introducer does not share a NAT box with exactly one party; for that class (outside the property's quantifier, which ranges over requester and introduced peer) blind_introducer_refuted, and the implementation agrees - recorded as an observation, not a finding.",
+         "DiscoveryCommunity nodes. Second property file props/C13x.v (8 theorems): general NAT lemmas (filter_only_by_outbound, mapping_only_by_own_outbound, other_sites_untouched, delivered_was_solicited) and the enlarged space with the introducer itself behind a NAT (6144 configurations decided in the kernel): nat_introducer_reachability wherever the introducer does not share a NAT box with exactly one party; for that class (outside the property's quantifier, which ranges over requester and introduced peer) blind_introducer_refuted, and the implementation agrees - recorded as an observation, not a finding. Third property file props/C13y.v (10 theorems): the introduction / puncture handlers of community.py, walk_to, the handler table with its decorators, the endpoint's LAN helpers and payload constructor signatures are translated one-to-one into a deep embedding of the Python subset interpreted in Coq (tr_introduction, fail closed); gen_refines_hand_model (handle_g = handle for every node state within max_peers and every message) and per-step world refinements.",
     note="Trusted: the NAT simulator (endpoint-independent mapping, textbook cone filtering, no hairpin, FIFO) and its Gallina twin "
          "(differential-tested); harness (LAN-provider patch, scripted random.choice). Assumes public introducer, IPv4, authentic "
          "senders, fewer than max_peers; symmetric NATs, loss, timeouts outside. The scenario theorem is evaluation over a fixed address "
@@ -268,7 +268,7 @@ CHECKS["C04"] = dict(
          "add an innermost layer the rendezvous point never opens. Real TunnelCommunity / HiddenTunnelCommunity nodes (1-3 hop circuits "
          "alive together, rendezvous pair) are compared with the model event by event in lockstep (real ciphertexts rendered into a toy "
          "AEAD), incl. flips of every header byte and sampled/all body bytes, truncation, extension, splices, injections; an independent "
-         "oracle peels layers with raw SessionKeys. The model includes the nested dispatch of datagrams returned through the exit and the re-injection whitelist (repo fix af5d7df): outside_control_message_dropped; ping_answered_on_e2e_circuit; cell kinds (data, ping, speed test) over plain and e2e circuits and tunnel-shaped returned datagrams from three kinds of outside senders are part of the lockstep and oracle.",
+         "oracle peels layers with raw SessionKeys. The model includes the nested dispatch of datagrams returned through the exit and the re-injection whitelist (repo fix af5d7df): outside_control_message_dropped; ping_answered_on_e2e_circuit; cell kinds (data, ping, speed test) over plain and e2e circuits and tunnel-shaped returned datagrams from three kinds of outside senders are part of the lockstep and oracle. Second property file props/C04x.v (12 theorems): send_cell / send_data / exit_data / on_data / on_ping / on_pong / on_test_request, the unpack_cell wrapper, the crypto endpoint's send side and TunnelExitSocket.tunnel_data are translated from the AST every run (tr_onion, fail closed, reusing the translated cell path of C03x); gen_refines_hand_model (g_on_packet_rec = on_packet_rec incl. nested re-injection), gen_send_side_refines, gen_plaintext_cell_never_handled, gen_outside_control_message_dropped.",
     note="AEAD assumed ideal; per-hop keys distinct; Rust endpoint fast path not modelled; relay_early budget is a hypothesis of the path "
          "predicates; DNS stubbed; the 'packet meant for another community' branch of on_data is not exercised by the correspondence. "
          "Model follows fix 1587225.",
@@ -281,7 +281,7 @@ CHECKS["C05"] = dict(
          "removes an entry only when signed by the stored neighbour, and only at the next removal tick; the table invariant holds and "
          "entries are never re-keyed over every history of cells, control messages, timers and forgeries (tables_inv). Real nodes with up "
          "to 4 (quick) / 6 (thorough) concurrent circuits over shared relays under random delivery order, forged cells, creates under "
-         "live ids and the destroy matrix agree with the model event by event; oracle from topology, tagged payloads and object identities. Forged cells under every known id (7 types x plaintext x relay_early x 3 senders) and several circuits sharing one exit with gated transport opening are part of the scenarios; data_plane_preserves_tables_nested, dispatcher_consumer_needs_first_hop_address.",
+         "live ids and the destroy matrix agree with the model event by event; oracle from topology, tagged payloads and object identities. Forged cells under every known id (7 types x plaintext x relay_early x 3 senders) and several circuits sharing one exit with gated transport opening are part of the scenarios; data_plane_preserves_tables_nested, dispatcher_consumer_needs_first_hop_address. Second property file props/C05x.v (14 theorems): should_join_circuit / join_circuit / on_create / on_created / on_destroy / destroy_* / remove_* are translated from the AST every run (tr_onion); gen_refines_hand_model_step / _run (g_cstep = cstep, g_crun = crun) and create_in_use_refused / created_never_overwrites_relay / destroy_only_adjacent / exit_binding / tables_inv restated over the translated code; translator shape obligation: every mutable TunnelExitSocket attribute is per instance.",
     note="AEAD ideal; destroy signature check trusted as in C01; key agreement, payload parsing and candidate choice are oracles; random-id "
          "collisions (2^-32) assumed away; originator-side circuit construction is C08's; do_ping disabled in harness nodes. 'Relay "
          "entries come in inverse pairs' holds at creation only (not an invariant of the code). Model follows fixes 6c217ee, f87da90 (created_never_overwrites_relay).",
